@@ -54,8 +54,7 @@ def run_rules(pid, ctx):
                 uniq.append(rep)
         res.reports = uniq
         # floors
-        if res.floor and len(res.instances) < res.floor and not any(
-                r.detail.get("reason") in ("anchor-missing", "internal-error") for r in res.reports):
+        if res.floor and len(res.instances) < res.floor and not res.reports:
             res.report("%s|floor" % res.rule, "-", "-",
                        "rule examined %d instances, fewer than the %d confirmed by hand: fails closed"
                        % (len(res.instances), res.floor), reason="floor")
